@@ -55,7 +55,10 @@ def loss_scenario(rng):
 def generate(rng, tier, n=None, **kw):
     cases = B.generate(rng, tier, weights=WEIGHTS, n=n, **GEN_KW)
     k = 40 if tier == "quick" else 600
-    return cases + [("loss%d" % i, loss_scenario(rng)) for i in range(k)]
+    # ... and the provider-stream scenarios (claims through kuksa.val.v2 OpenProviderStream on the real server, incl.
+    # claims that must be refused as a whole and register nothing)
+    return cases + [("loss%d" % i, loss_scenario(rng)) for i in range(k)] + \
+        [("st%d" % i, H.stream_scenario(rng)) for i in range(30 if tier == "quick" else 400)]
 
 
 GEN_KW = {}
